@@ -552,5 +552,25 @@ func (c *ctx) ocraC13(i int, key []byte, secret string) {
 	cf := sa.su.Cfg
 	cf.Digits = 11
 	c.rec.Emit(doValidateOCRA(fmt.Sprintf("C13/ocra/%d/badsuite", i), secret, code+"0", cfgSuiteArg(cf), in))
+	// every way generation can fail, each with a submitted string of exactly the length the suite asks for
+	for _, d := range []int{0, 1, 3, 11, 12, -1} {
+		cf.Digits = d
+		n := d
+		if n < 0 {
+			n = 0
+		}
+		c.rec.Emit(doValidateOCRA(fmt.Sprintf("C13/ocra/%d/baddigits%d", i, d), secret, strings.Repeat("0", n), cfgSuiteArg(cf), in))
+	}
+	c.rec.Emit(doValidateOCRA(fmt.Sprintf("C13/ocra/%d/zerosuite", i), secret, "", cfgSuiteArg(Cfg{Raw: B{}}), in))
+	c.rec.Emit(doValidateOCRA(fmt.Sprintf("C13/ocra/%d/zerorawsuite", i), secret, "", suiteArg{s: otp.RawSuite{}, su: Su{Kind: "cfg", Name: B{}, Cfg: Cfg{Raw: B{}}}}, in))
+	cf = sa.su.Cfg
+	cf.Hash = 3 + c.rng.Intn(200)
+	c.rec.Emit(doValidateOCRA(fmt.Sprintf("C13/ocra/%d/badhash", i), secret, code, cfgSuiteArg(cf), in))
+	cf = sa.su.Cfg
+	cf.P, cf.PH = true, 0
+	c.rec.Emit(doValidateOCRA(fmt.Sprintf("C13/ocra/%d/nopwhash", i), secret, code, cfgSuiteArg(cf), in))
+	cf = sa.su.Cfg
+	cf.T, cf.TS = true, 0
+	c.rec.Emit(doValidateOCRA(fmt.Sprintf("C13/ocra/%d/notimestep", i), secret, code, cfgSuiteArg(cf), in))
 	c.rec.Emit(doValidateOCRA(fmt.Sprintf("C13/ocra/%d/badsecret", i), "!"+secret, code, sa, in))
 }
